@@ -44,6 +44,20 @@ package swarm
 
 //@ func (ds *dialSync) Dial
 //@ prop C01 C05
+//@ noinline dial
+//@ ensures ncalls(getActiveDial, 0) == 1 && ncalls(dial, 0) == 1 && arg(dial, 0, 0) == ret(getActiveDial, 0, 0) && arg(dial, 0, 1) == ctx
+//@ ensures result0 == ret(dial, 0, 0) && result1 == ret(dial, 0, 1)
+//@ ensures has(ds.dials, p) == old(has(ds.dials, p))
+//@ ensures old(has(ds.dials, p)) ==> ds.dials[p] == old(ds.dials[p]) && ds.dials[p].refCnt == old(ds.dials[p].refCnt)
+//@ ensures ret(getActiveDial, 0, 0).refCnt == 0 <==> !has(ds.dials, p)
+//@ ensures ret(getActiveDial, 0, 0).refCnt == 0 ==> closed(ad.reqch)
+//@ ensures closed(ad.reqch) ==> ret(getActiveDial, 0, 0).refCnt == 0
+//@ ensures ret(getActiveDial, 0, 0).refCnt == 0 <==> (called(cancelCause, 0) || called(cancelCause, 1))
+//@ ensures called(cancelCause, 0) ==> result1 == nil && arg(cancelCause, 0, 0) == errConcurrentDialSuccessful
+//@ ensures called(cancelCause, 1) ==> result1 != nil && arg(cancelCause, 1, 0) == result1
+//@ ensures ncalls(cancelCause, 0) + ncalls(cancelCause, 1) <= 1
+//@ ensures forall q peer.ID :: q != p ==> has(ds.dials, q) == old(has(ds.dials, q)) && ds.dials[q] == old(ds.dials[q])
+//@ ensures forall a *activeDial :: !fresh(a) && a != ret(getActiveDial, 0, 0) ==> a.refCnt == old(a.refCnt)
 //@ noframe
 
 //@ func (s *Swarm) dialAddr
@@ -101,6 +115,9 @@ package swarm
 //@ func (s *Swarm) waitForDirectConn
 //@ prop C12
 //@ ensures result1 == nil && result0 != nil ==> !result0.stat.Limited
+//@ ensures forall i int :: 0 <= i && i < len(old(s.directConnNotifs.m[p])) ==>
+//@         (exists j int :: 0 <= j && j < len(s.directConnNotifs.m[p]) && s.directConnNotifs.m[p][j] == old(s.directConnNotifs.m[p])[i])
+//@ ensures forall q peer.ID :: q != p ==> s.directConnNotifs.m[q] == old(s.directConnNotifs.m[q])
 //@ noframe
 
 //@ func (s *Swarm) NewStream
